@@ -156,6 +156,60 @@ func (t *tagString) Scan(src interface{}) error {
 	return nil
 }
 
+// dualCodec implements driver.Valuer + sql.Scanner AND encoding.TextMarshaler,
+// encoding.BinaryMarshaler, Marshal/Unmarshal (and has a natural JSON form).
+// Every form is different and every decoder accepts only its own form, so a
+// codec that writes one form and reads another cannot go unnoticed.
+type dualCodec struct {
+	N int32
+	S string
+}
+
+func (d dualCodec) form(prefix string) []byte {
+	return []byte(fmt.Sprintf("%s%d:%s", prefix, d.N, d.S))
+}
+
+func (d *dualCodec) parse(prefix string, b []byte) error {
+	s := string(b)
+	if len(s) < len(prefix) || s[:len(prefix)] != prefix {
+		return fmt.Errorf("dualCodec: %q is not in the %q form", s, prefix)
+	}
+	var n int32
+	rest := s[len(prefix):]
+	i := 0
+	for i < len(rest) && rest[i] != ':' {
+		i++
+	}
+	if i == len(rest) {
+		return fmt.Errorf("dualCodec: bad value %q", s)
+	}
+	if _, err := fmt.Sscanf(rest[:i], "%d", &n); err != nil {
+		return fmt.Errorf("dualCodec: bad number in %q", s)
+	}
+	d.N, d.S = n, rest[i+1:]
+	return nil
+}
+
+func (d dualCodec) Value() (driver.Value, error) { return string(d.form("v:")), nil }
+func (d *dualCodec) Scan(src interface{}) error {
+	switch v := src.(type) {
+	case nil:
+		*d = dualCodec{}
+		return nil
+	case string:
+		return d.parse("v:", []byte(v))
+	case []byte:
+		return d.parse("v:", v)
+	}
+	return fmt.Errorf("dualCodec: cannot scan %T", src)
+}
+func (d dualCodec) MarshalText() ([]byte, error)    { return d.form("text:"), nil }
+func (d *dualCodec) UnmarshalText(b []byte) error   { return d.parse("text:", b) }
+func (d dualCodec) MarshalBinary() ([]byte, error)  { return d.form("bin:"), nil }
+func (d *dualCodec) UnmarshalBinary(b []byte) error { return d.parse("bin:", b) }
+func (d dualCodec) Marshal() ([]byte, error)        { return d.form("pb:"), nil }
+func (d *dualCodec) Unmarshal(b []byte) error       { return d.parse("pb:", b) }
+
 // ---- tables ----
 
 // intsRow: every int/uint width, pointer and non-pointer, named ints.
@@ -288,6 +342,19 @@ type valuerRow struct {
 	Tag    tagString
 	PTag   *tagString
 	ImplNS sql.NullString `sql:",implicitnull"`
+	// a Valuer/Scanner type that also has text, binary, Marshal and JSON forms,
+	// under every tag: writing and reading must agree on ONE form
+	DNone    dualCodec
+	DStr     dualCodec `sql:",string"`
+	DBin     dualCodec `sql:",binary"`
+	DJson    dualCodec `sql:",json"`
+	PDNone   *dualCodec
+	PDStr    *dualCodec `sql:",string"`
+	PDBin    *dualCodec `sql:",binary"`
+	PDJson   *dualCodec `sql:",json"`
+	DImpl    dualCodec  `sql:",implicitnull"`
+	DStrImpl dualCodec  `sql:",string,implicitnull"`
+	DBinImpl dualCodec  `sql:",binary,implicitnull"`
 }
 
 // userRow is the struct thunder's own sqlgen tests use.
